@@ -138,6 +138,14 @@ Theorem refuted_urlgen_drms : fx_urlgen_drms current = false ->
   exists r, handler_model current envW r = HPanic "app.(*Server).urlGenHandlerFunc: index out of range".
 Proof. witness (RUrlgenDrms "a"). Qed.
 
+Theorem refuted_stop_before_start : fx_stop_order current = false ->
+  exists r, handler_model current envW r = HPanic "app.lastPeriodStartTime: index out of range".
+Proof. witness (live "/livesim2/start_1000/stop_900/periods_60/a/M.mpd" "2000000"). Qed.
+
+Theorem refuted_stop_before_start_cap : fx_stop_order current = false ->
+  exists r, handler_model current envW r = HPanic "app.splitPeriod: makeslice: cap out of range".
+Proof. witness (live "/livesim2/start_1000/stop_0/periods_60/a/M.mpd" "2000000"). Qed.
+
 (** With every repair in place none of the witnesses above is a panic or a hang any more. *)
 Definition all_witnesses : list request :=
   [ live "/livesim2/stoprel_x/a/M.mpd" "100000"; live "/livesim2/annexI_a/a/M.mpd" "100000";
